@@ -186,3 +186,95 @@ func runLockRT(ctx *Ctx) {
 		}
 	}
 }
+
+// ---------------------------------------------------------------------------------------------
+// Component "lockloss" (C04, Go-side monitors only): what Unlock leaves behind when the lock record is
+// no longer there (the lease was lost while the lock was held — outside the lease assumption of the
+// protocol model, in which a holder's record always exists; the model's Unlock step gives the token back
+// whether Delete answers ok or ErrNotExist).  The Locker must be usable again afterwards.
+
+func init() { components["lockloss"] = runLockLoss }
+
+type tryLocker interface {
+	TryLock(ctx context.Context) bool
+	LockWithCtx(ctx context.Context) error
+	Lock()
+	Unlock()
+}
+
+func lockLossScenario(kind string) string {
+	st := inmem.New()
+	p := dist.NewKvsLockProvider(st, "/loss/")
+	defer p.Shutdown()
+	l := p.NewLocker("l").(tryLocker)
+	bg := context.Background()
+	switch kind {
+	case "lock":
+		l.Lock()
+	case "try":
+		if !l.TryLock(bg) {
+			return "TryLock on a free lock returned false"
+		}
+	case "ctx":
+		if err := l.LockWithCtx(bg); err != nil {
+			return "LockWithCtx on a free lock failed: " + err.Error()
+		}
+	}
+	// a second goroutine of the same Locker queues up behind the holder (parked on the local token)
+	got := make(chan error, 1)
+	cx, cancel := context.WithTimeout(bg, 3*time.Second)
+	defer cancel()
+	queued := kind != "try"
+	if queued {
+		go func() { got <- l.LockWithCtx(cx) }()
+		time.Sleep(5 * time.Millisecond)
+	}
+	// the record disappears while the lock is held
+	it, err := st.ListKeys(bg, "*")
+	if err != nil {
+		return "ListKeys failed: " + err.Error()
+	}
+	n := 0
+	for it.HasNext() {
+		k, _ := it.Next()
+		st.Delete(bg, k)
+		n++
+	}
+	if n != 1 {
+		return fmt.Sprintf("expected exactly one lock record while held, found %d", n)
+	}
+	done := make(chan struct{})
+	go func() { l.Unlock(); close(done) }()
+	select {
+	case <-done:
+	case <-time.After(2 * time.Second):
+		return "Unlock did not return although the record was already gone"
+	}
+	if queued {
+		if err := <-got; err != nil {
+			return "a caller queued on the same Locker was not handed the lock after Unlock (record already gone at Unlock): " + err.Error()
+		}
+		l.Unlock()
+	}
+	if !l.TryLock(bg) {
+		return "after Unlock (record already gone at Unlock) the same Locker cannot acquire again: TryLock = false on a free lock"
+	}
+	l.Unlock()
+	if it, err := st.ListKeys(bg, "*"); err == nil && it.HasNext() {
+		return "a lock record is left although every holder has unlocked"
+	}
+	return ""
+}
+
+func runLockLoss(ctx *Ctx) {
+	for _, kind := range []string{"lock", "try", "ctx"} {
+		ctx.R.Case("lockloss")
+		ctx.R.Nontrivial(kind)
+		ctx.R.Op("scenario lease-lost-then-unlock-"+kind, "ok")
+		if bad := lockLossScenario(kind); bad != "" {
+			ctx.R.Quiet("mon C04-unlock-always-returns-token", bad)
+		} else {
+			ctx.R.Quiet("mon C04-unlock-always-returns-token", "ok")
+		}
+	}
+}
